@@ -155,22 +155,29 @@ theorem louvainEmbFit_entry (nRow nCol : Nat) (a : Mat α) (fb : Bool) (ln lr lc
       rw [← this] at hc ⊢
       exact louvainProject_entry nRow nCol a _ i c hi hc
 
-/-- the column embedding of a rectangular input: the closed form for some labelling of the rows (the re-indexed
-    secondary labels) -/
+/-- the column embedding on the bipartite route: the closed form for the re-indexed row labels, which are the rank of
+    each row label among the kept column labels (`-1` when it is not kept) -/
 theorem louvainEmbFit_col (nRow nCol : Nat) (a : Mat α) (fb : Bool) (ln lr lc : List Nat) (which : Isolated)
     {out : LouvainEmbOut α} (h : louvainEmbFit nRow nCol a fb ln lr lc which = .ok out)
     (hne : (fb || nRow != nCol) = true) :
-    ∃ labRow : List Int, ∃ ec, out.embeddingCol = some ec ∧
-      ∀ j c, j < nCol → c < membershipCols labRow →
-        mget ec j c = Spec.louvainEntry nRow (mkMat nCol nRow fun j i => mget a i j) labRow j c := by
+    out.labelsRow = reindexSecondary (labelsKeep lc) lr ∧ out.labelsRow.length = lr.length ∧
+    ∃ ec, out.embeddingCol = some ec ∧
+      ∀ j c, j < nCol → c < membershipCols out.labelsRow →
+        mget ec j c = Spec.louvainEntry nRow (mkMat nCol nRow fun j i => mget a i j) out.labelsRow j c := by
   unfold louvainEmbFit at h
   simp only [hne, Bool.not_true, Bool.false_eq_true, if_false, reindexLabels, bind, Except.bind, pure, Except.pure] at h
   split at h
   · cases h
-  · rename_i v _
+  · rename_i v hv
     have := Except.ok.inj h
     rw [← this]
-    refine ⟨v.2.getD [], _, rfl, ?_⟩
+    have hv2 : v.2 = some (reindexSecondary (labelsKeep lc) lr) := by
+      split at hv
+      · cases hv
+      · have := Except.ok.inj hv
+        rw [← this]
+    simp only [hv2, Option.getD_some]
+    refine ⟨trivial, by simp [reindexSecondary], _, rfl, ?_⟩
     intro j c hj hc
     exact louvainProject_entry nCol nRow _ _ j c hj hc
 
